@@ -218,6 +218,34 @@ def run(ctx):
             obs = obs.replace("file1", "file1") if True else obs
         else:
             obs = out
+        # the property's own reading: inline defs > the file's defs > inherited ones; imports (a later namespace over an earlier one) > context > builtins
+        def member(sp, name):
+            if name in sp[1]:
+                return "inline%d" % sp[0]
+            if name in sp[2]:
+                return "file%d" % sp[0]
+            if sp[3] is not None and name in sp[3]:
+                return "file%d" % (10 + sp[0])
+            return None
+        if qualified:
+            want_o = member(specs[i_q], x_eff) or "attrerror"
+        else:
+            want_o = None
+            err = False
+            for sp in specs:
+                for it in sp[4]:
+                    if it == "*":
+                        if x_eff in sp[1]:
+                            want_o = "inline%d" % sp[0]
+                        elif x_eff in sp[2]:
+                            want_o = "file%d" % sp[0]
+                    elif it == x_eff:
+                        want_o = member(sp, it)
+            if want_o is None:
+                want_o = "context" if (x_eff in cv) else ("builtin" if x_eff == "len" else "undefined")
+        if obs != want_o:
+            ctx.violation({"main": "".join(main), "name": x_eff, "context": sorted(cv), "namespaces": repr(specs), "strict_undefined": strict, "answered": obs, "expected": want_o},
+                          "member / import precedence: inline defs > the file's defs > inherited; imports > context > builtins", tags=["c07.precedence"])
         # model request
         def ns_tok(i, inline, file_defs, inh_defs):
             enc_names = lambda l: "%d %s" % (len(l), " ".join(str(NAMES.index(y)) for y in l))  # noqa
